@@ -180,6 +180,8 @@ type Resp struct {
 	Upgraded bool          `json:"upgraded,omitempty"`
 	ClosedAt time.Duration `json:"closed_at,omitempty"` // upgraded: when the proxy closed the connection
 	Echo     bool          `json:"echo,omitempty"`      // upgraded: echo round trip worked
+	// Informational: 1xx responses received before the final one
+	Informational []int `json:"informational,omitempty"`
 }
 
 // World is one scenario's universe. Create inside synctest.Test.
@@ -666,6 +668,9 @@ func (ft *FakeTarget) defaultHandle(c net.Conn, br *bufio.Reader, req *http.Requ
 		ft.end(rec, "aborted")
 		return false
 	}
+	if mode == "hints" { // informational response(s) before the final one
+		fmt.Fprintf(c, "HTTP/1.1 103 Early Hints\r\nLink: </style.css>; rel=preload\r\n\r\n")
+	}
 	// the default answer echoes what matters for behavioural snapshots (C06/C11)
 	payload := ft.Name
 	if sz, err := strconv.Atoi(req.Header.Get("X-Size")); err == nil && sz >= 0 {
@@ -842,6 +847,10 @@ func (w *World) doOn(plain, tlsLn *memListener, r Req) *Resp {
 	}
 	br := bufio.NewReader(c)
 	hr, err := http.ReadResponse(br, &http.Request{Method: cmpOr(r.Method, "GET")})
+	for err == nil && hr.StatusCode >= 100 && hr.StatusCode < 200 && hr.StatusCode != http.StatusSwitchingProtocols {
+		resp.Informational = append(resp.Informational, hr.StatusCode)
+		hr, err = http.ReadResponse(br, &http.Request{Method: cmpOr(r.Method, "GET")})
+	}
 	if err != nil {
 		resp.Err, resp.Done = err.Error(), w.Now()
 		return resp
